@@ -24,12 +24,14 @@ import (
 //   - the membership map is the context field of type map[osm.FeatureID][]…; the skippable set is the context
 //     field of type map[osm.WayID]struct{};
 //   - the interest predicate is the package function of type func(osm.Tags, map[string]string) bool;
-//   - the multipolygon builder is any function that handles orb.MultiPolygon values or is called only from such;
+//   - the multipolygon builder is any function that has orb.MultiPolygon values (signature, variable or expression), an
+//     unexported pass-free function that reaches one through static calls, or a helper called only from such (c17_role.go);
 //   - the meta switch is the type switch over osm.Element with cases *osm.Node/*osm.Way/*osm.Relation, wherever it is;
 //   - feature emissions are appends to / literals of []*geojson.Feature and FeatureCollection.Append, element
 //     passes are ranges over osm.Relations/osm.Ways/osm.Nodes, found from the exported Convert through helpers.
 // Files: c17.go (registration, G1, G2, G4), c17_cfg.go (CFG facts, finite-domain evaluation, regions, effects),
-// c17_g3.go, c17_g5.go, c17_g6.go, c17_benign.go (behaviour-preserving variants and defects in refactored shapes).
+// c17_role.go (multipolygon builder by role), c17_g3.go, c17_g5.go, c17_g6.go, c17_benign.go and c17_benign2.go
+// (behaviour-preserving variants and defects seeded into refactored shapes).
 
 func init() {
 	register(&core.Property{
@@ -41,7 +43,7 @@ func init() {
 			"(G3) options only subtract: the value of an option field flows only into branch conditions (directly, through a local assigned once, a parameter or a one-line predicate helper); at every branch whose outcome depends on the option (three-valued evaluation of the condition with the option set and unset), the side taken when the option subtracts has no effect of its own and leaves only by nil/zero/unchanged-argument returns, and what it bypasses is, besides region-local state, only what the option documents (noID: stores of Feature.ID; noMeta: the meta property; noRelationMembership: the relations property, or updates of the membership map that are not bypassed when the member is a node; includeInvalidPolygons: only removes skips, and only inside the multipolygon builder); every store of Feature.ID / the meta / the relations property and every non-node-keyed read of the membership map is unreachable when the respective option is set; every option field is written only by its own Option constructor; " +
 			"(G4) the node/way/relation cases of the meta type switch are identical up to the element type, the names of case-local variables and the order of independent map fills; " +
 			"(G5) every feature emission reachable from Convert lies in exactly one element pass (range over the input's relations, ways or nodes, in Convert or in a helper), every path through one iteration emits at most one feature (helpers counted with their per-call maximum), in the ways pass every emission is controlled by the test that the way is not in the skippable set, and the relation pass, which fills that set, is complete before the ways pass starts; " +
-			"(G6) outside the multipolygon builder a way is put into the skippable set only under the fact that the interest predicate is false for that way's tags with a nil discount set. " +
+			"(G6) a way is put into the skippable set only under the fact that the interest predicate is false for that way's own tags, and the discount set handed to the predicate is nil on every path reaching that guard (literal, local whose every assignment is examined, or helper parameter decided at the call sites); only inside the multipolygon builder may the discount set be non-nil, and only where no member other than an outer way can see it (the CFG is evaluated with <member>.Role != \"outer\": the guard is unreachable, or every non-nil assignment of the local carrying the set cannot execute or is overwritten before the guard, within one loop iteration); the old-style take-over of a relation by its single outer way is left to C16. " +
 			"All of G3-G6 are decided on guard facts and reachability, so if/switch forms, inverted branches, early returns, merged or split guards, if-init forms, locals naming a condition, extracted or inlined helpers and moved functions do not change the verdict. " +
 			"NOT decided: geometry values (ring winding, joined route geometry), the tag-interest rule itself, which nodes become points, JSON encoding of the result, mutation through reflection/unsafe, functions only reachable through calls VTA cannot resolve, option values that reach a function literal (reported as undecidable).",
 		Assumptions: []string{"go/types, go/cfg, go/ssa, VTA call graph (x/tools v0.29.0)", "no unsafe/reflect-based writes in the call tree: input memory is only reachable through the types reachable from osm.OSM",
@@ -52,7 +54,7 @@ func init() {
 		Technique: "SSA type-based effect analysis with allocation-freshness over the VTA call tree of Convert; go/cfg guard facts, three-valued finite-domain evaluation of branch conditions under option valuations, exclusive/bypassed CFG regions with interprocedural effect summaries; type-directed structural comparison of sibling cases modulo local naming and commuting statements; path counting over go/cfg loop bodies with per-call emission maxima",
 		DesignRef: "DESIGN.md §5 C17",
 		NeedSSA:   true,
-		Benign:    c17Benign,
+		Benign:    append(append([]core.Mutant{}, c17Benign...), c17Benign2...),
 		Rules: []*core.Rule{
 			// Floors count what a behaviour-preserving refactoring cannot remove:
 			// G1/G2: Convert, the four option setters and the exported osm/mputil API the conversion needs (Tags.Map, Tags.Find,
@@ -67,7 +69,7 @@ func init() {
 			{ID: "G3", Floor: 10, Doc: "options only subtract: each option decides only branches whose subtracting side has no effect of its own and bypasses only what the option documents; option fields are written only by their constructors", Run: c17G3},
 			{ID: "G4", Floor: 3, Doc: "node/way/relation meta cases are identical up to the element type, local names and the order of independent map fills", Run: c17G4},
 			{ID: "G5", Floor: 5, Doc: "each element pass emits at most one feature per iteration on every path; skippable ways are not emitted; the relation pass precedes the ways pass", Run: c17G5},
-			{ID: "G6", Floor: 2, Doc: "a way becomes skippable only when it has no interesting tag of its own (outside the multipolygon builder)", Run: c17G6},
+			{ID: "G6", Floor: 2, Doc: "a way becomes skippable only when it has no interesting tag of its own; tags may be discounted only for outer members inside the multipolygon builder", Run: c17G6},
 		},
 		Mutants: append([]core.Mutant{
 			{Name: "g6-route-way-ignores-relation-tags", File: "osmgeojson/convert.go", Find: "if !hasInterestingTags(way.Tags, nil) {\n\t\t\tctx.skippable[way.ID] = struct{}{}", Replace: "if !hasInterestingTags(way.Tags, relation.Tags.Map()) {\n\t\t\tctx.skippable[way.ID] = struct{}{}", ExpectRule: "G6", ExpectConstruct: "buildRouteLineString"},
@@ -108,7 +110,7 @@ func init() {
 			{Name: "g5-skippable-not-skipped", File: "osmgeojson/convert.go", Find: "\t\tif _, skip := ctx.skippable[way.ID]; skip {\n\t\t\tcontinue\n\t\t}\n", Replace: "", ExpectRule: "G5", ExpectConstruct: "skippable@Convert ways"},
 			{Name: "g5-skippable-inverted", File: "osmgeojson/convert.go", Find: "if _, skip := ctx.skippable[way.ID]; skip {", Replace: "if _, skip := ctx.skippable[way.ID]; !skip {", ExpectRule: "G5", ExpectConstruct: "skippable@Convert ways"},
 			{Name: "g5-node-loop-appends-in-inner-loop", File: "osmgeojson/convert.go", Find: "\t\tfeature := ctx.nodeToFeature(node)\n\t\tif feature != nil {\n\t\t\tfeatures = append(features, feature)\n\t\t}\n", Replace: "\t\tfeature := ctx.nodeToFeature(node)\n\t\tfor range ctx.relationMember[node.FeatureID()] {\n\t\t\tfeatures = append(features, feature)\n\t\t}\n", ExpectRule: "G5", ExpectConstruct: "loop@Convert nodes"},
-		}, c17RefactoredMutants...),
+		}, append(append([]core.Mutant{}, c17RefactoredMutants...), c17Mutants2...)...),
 	})
 }
 
